@@ -122,7 +122,7 @@ pub fn run_jobs(ctx: &Ctx, jobs: &[Job], props: u32, stop_prop: u32, cap_states:
     let (name, layout, alphabet, n) = jobs[ji].materialise();
     // generated layouts are tiny on a correct tree (hundreds to a few thousand states): a much lower cap keeps a
     // tree whose bookkeeping grows without bound from exhausting memory before the cap is reported
-    let cap_here = match &jobs[ji] { Job::Gen { .. } => cap_states.min(400_000), Job::Fixed { name, .. } if name.starts_with("Q4-") || name.starts_with("S4-") || name.starts_with("S5-") => cap_states.min(400_000), _ => cap_states };
+    let cap_here = match &jobs[ji] { Job::Gen { .. } => cap_states.min(400_000), Job::Fixed { name, .. } if name.starts_with("Q4-") || name.starts_with("S4-") || name.starts_with("S5-") || name.starts_with("K1-") => cap_states.min(400_000), _ => cap_states };
     let opts = Opts { n, max_states: cap_here, props, stop_prop, known: known.clone(), conformance_stride: 64, keep_samples: if ji % 97 == 0 { 1 } else { 0 }, max_depth: 48,
       // the few large fixed layouts expand each BFS level on several threads (results do not depend on the number)
       inner_threads: if ctx.tier == Tier::Thorough && matches!(&jobs[ji], Job::Fixed { .. }) && alphabet.len() >= 30 && n >= 3 { std::env::var("VERIF_INNER_THREADS").ok().and_then(|v| v.parse().ok()).unwrap_or((ctx.threads / 2).max(1)) } else { 1 } };
@@ -303,6 +303,26 @@ pub fn same_final_jobs(need: Need, k: usize) -> Vec<Job> {
   jobs
 }
 
+/// K1: every key code the tool knows, once as a key outside the layout and once as the output of a mapping, next to a
+/// no-repeat mapping - the classification of keys (standard modifier or not) checked for each code, not assumed by class
+pub fn every_key_jobs(need: Need) -> Vec<Job> {
+  use crate::keys::{Mapping, Repeat};
+  use num_traits::FromPrimitive;
+  use KeyCode::*;
+  let mut jobs = vec![];
+  for code in 0u16..0x300 {
+    let k = match KeyCode::from_u16(code) { Some(k) => k, None => continue };
+    if k == A || k == C { continue; }
+    let layout = Layout { mappings: vec![
+      Mapping { from: vec![A], to: vec![A], repeat: Repeat::Disabled, absorbing: vec![] },
+      Mapping { from: vec![C], to: vec![k], repeat: Repeat::Normal, absorbing: vec![] },
+    ] };
+    if !layout_ok(&layout, need) { continue; }
+    jobs.push(Job::Fixed { name: format!("K1-{:?}", k), layout, alphabet: vec![A, C, k], n: 3, alpha_rule: "A, C and the key code in question" });
+  }
+  jobs
+}
+
 pub fn run(ctx: &Ctx) -> Outcome {
   let id = ctx.id.as_str();
   // AALL (not a registered check): the whole-corpus plan with the predicates of ALL mapper properties at once -
@@ -330,6 +350,11 @@ pub fn run(ctx: &Ctx) -> Outcome {
     if ctx.tier == Tier::Thorough || matches!(id, "C03" | "C04") { sj.extend(same_final_jobs(plan.need, 5)); }
     gen_rules.push(json!({"family": "S4/S5", "what": "four (and five) mappings ending in the same key A, triggers drawn with repetition from [A],[CAPSLOCK,A],[LEFTSHIFT,A],[B,A], distinct outputs", "layouts": sj.len(), "bound_keys_held": 4, "alphabet": ["A", "B", "CAPSLOCK", "LEFTSHIFT"]}));
     jobs.extend(sj);
+  }
+  if matches!(id, "C01" | "C02" | "C05" | "C06" | "C07" | "C19" | "AALL") {
+    let kj = every_key_jobs(plan.need);
+    gen_rules.push(json!({"family": "K1", "what": "for every key code k the tool knows: A->[A] Disabled, C->[k]; alphabet A, C, k", "layouts": kj.len(), "bound_keys_held": 3}));
+    jobs.extend(kj);
   }
   // big fixed layouts first so that they do not become the tail
   jobs.sort_by_key(|j| match j { Job::Fixed { alphabet, n, .. } => 0usize.wrapping_sub(alphabet.len().pow(*n as u32)), _ => usize::MAX / 2 });
